@@ -47,6 +47,32 @@ UNI_RESULTS_ONLY = {'quick': None, 'thorough': (('a', 'b', 'c'), ('x', 'y'))}
 
 REDUCED_EDITS = None  # filled lazily
 
+# derivations as transitions of the C13 search (explore.OBSERVERS): every reachable internal
+# state of a definition over these universes x every derivation, judged by R2
+BFS_UNIVERSES = {'quick': ((('a', 'b', 'c'), ('x', 'y')), (('a', 'b'), ('x', 'y', 'z'))),
+                 'thorough': ((('a', 'b', 'c'), ('x', 'y')), (('a', 'b'), ('x', 'y', 'z')),
+                              (('a', 'b', 'c'), ('a', 'y', 'z')))}
+
+
+def run_bfs(shard, tier):
+    """Explicit-state search over the real Definition (engine E2, one process, fixed order)
+    with the derivations copy / transposed / inverted / take / iteration / text as
+    transitions: reported here are the derivation clauses; the mutator clauses are C13's."""
+    universe = BFS_UNIVERSES[tier][shard[1]]
+    names = sorted(set(universe[0]) | set(universe[1]))
+    ranks = {n: (i if shard[1] % 2 == 0 else len(names) - 1 - i) for i, n in enumerate(names)}
+    r = explore.bfs(universe, (), ranks, ID, serial=True, budget_s=BUDGET[tier])
+    V = []
+    for x in r['violations']:
+        if x['clause'].startswith('observe-') or x['clause'].startswith('read-only-call'):
+            case = {'universe': [list(universe[0]), list(universe[1])], 'ranks': ranks,
+                    'history': explore.history_of(r['seen'], x['parent']), 'op': x['op']}
+            V.append(common.violation(ID, x['clause'], case, x['expected'], x['observed']))
+    ctr = {'tables': r['states'], 'calls': r['transitions'],
+           'hit_bfs_observations': r['counters'].get('observations', 0),
+           'nontrivial': r['states'], 'evaluations': r['transitions']}
+    return {'counters': ctr, 'violations': V[:3], 'samples': [], 'outcomes': []}
+
 
 def shards(tier):
     sh = []
@@ -59,6 +85,8 @@ def shards(tier):
             sh.append(('D', 'results', i, min(n2, i + 20)))
     sh += [s for s in e1.std_shards(tier, with_f=False, with_big=True)]
     sh.append(('EQ',))
+    for ui in range(len(BFS_UNIVERSES[tier])):
+        sh.insert(0, ('BFS', ui))
     sh.append(('BIGDEF',))
     sh.append(('SPECIAL',))
     return sh
@@ -276,6 +304,17 @@ def check_case(case, ctr):
     d = c.definition()
     ctr['calls'] += 4
     trip = (case.objs, case.props, case.rows)
+    # whatever containers the context and the definition hand out are the caller's to change:
+    # a second definition() / a second read must still show the table
+    for owner in (c, d):
+        for handed in (owner.bools, owner.objects, owner.properties):
+            if isinstance(handed, list):
+                handed.reverse()
+                handed.append(('\x00junk',))
+    d_again = c.definition()
+    if (tuple(d_again.objects), tuple(d_again.properties), [tuple(r) for r in d_again.bools]) != trip:
+        bad('context-definition-triple-after-editing-handed-out-containers', trip,
+            [d_again.objects, d_again.properties, d_again.bools])
     if (tuple(d.objects), tuple(d.properties), [tuple(r) for r in d.bools]) != trip:
         bad('context-definition-triple', trip, [d.objects, d.properties, d.bools])
     c2 = concepts.Context(*d)
@@ -488,6 +527,8 @@ def run_shard(shard, tier):
                     'violations': [common.library_exception(ID, {'shard': list(shard)}, e)]}
     if shard[0] == 'EQ':
         return run_eq(tier)
+    if shard[0] == 'BFS':
+        return run_bfs(shard, tier)
     return e1.run_shard_generic(shard, tier, ID, check_case)
 
 
@@ -499,6 +540,10 @@ def replay(v):
     c = v['case']
     if 'tag' in c:
         return e1.replay_e1(__import__(__name__, fromlist=['x']), v)
+    if 'history' in c and 'op' in c and isinstance(c.get('universe'), list):
+        universe = (tuple(c['universe'][0]), tuple(c['universe'][1]))
+        V = explore.replay_history(c['history'], c['op'], universe, c['ranks'])
+        return [common.violation(ID, x['clause'], c, x['expected'], x['observed']) for x in V]
     if c.get('universe') == 'big':
         return run_bigdef('quick')['violations']
     if c.get('universe') == 'special':
